@@ -4,7 +4,8 @@
    an arbitrary schedule (list of thread ids) of arbitrary per-thread programs. *)
 From Coq Require Import ZArith List Bool.
 From V Require Import factory.FacModel factory.FacSpec factory.FacObs factory.FacEq factory.FacEqThm
-  factory.FacLock factory.FacLock2 factory.FacRefute factory.FacThm factory.FacThm2 factory.FacThm3 factory.FacProg factory.FacFresh.
+  factory.FacLock factory.FacLock2 factory.FacRefute factory.FacThm factory.FacThm2 factory.FacThm3 factory.FacProg factory.FacFresh
+  factory.FacEqGenBase gen.FacEqGen factory.FacEqGenThm factory.FacCfg gen.FacCfgGen factory.FacCfgThm.
 Import ListNotations.
 Open Scope Z_scope.
 
@@ -162,11 +163,68 @@ Proof. exact zone_eq_sym_lemma. Qed.
 Print Assumptions C18_zone_eq_sym.
 
 Theorem C18_eq_zones_equal_offsets :
-  forall (isdst : Z -> bool) (range_off file_off ical_off : Z -> Z -> Z) a b i,
+  forall (isdst : Z -> bool) (range_off : Z -> Z -> Z -> Z -> Z -> Z -> Z -> Z) (file_off : Z -> Z -> Z -> Z -> Z)
+         (ical_off : Z -> Z -> Z) a b i,
     (zid a = zid b -> a = b) -> zone_eq a b = true ->
     utcoffset isdst range_off file_off ical_off a i = utcoffset isdst range_off file_off ical_off b i.
 Proof. exact eq_zones_equal_offsets_lemma. Qed.
 Print Assumptions C18_eq_zones_equal_offsets.
+
+(* ---- the model is tied to the source by REGENERATION (harness/gen_factory.py, run on every check):
+   gen/FacEqGen.v is the translation of the __eq__/__ne__/__hash__ methods of the five zone classes,
+   gen/FacCfgGen.v the statement-level control flow of the six factory bodies. *)
+Theorem C18_gen_eq_tzutc : forall id other, gen_eq_tzutc (ZUtc id) other = meth_eq (ZUtc id) other.
+Proof. exact gen_eq_tzutc_lemma. Qed.
+Print Assumptions C18_gen_eq_tzutc.
+
+Theorem C18_gen_eq_tzoffset : forall id n o other,
+  gen_eq_tzoffset (ZOffset id n o) other = meth_eq (ZOffset id n o) other.
+Proof. exact gen_eq_tzoffset_lemma. Qed.
+Print Assumptions C18_gen_eq_tzoffset.
+
+Theorem C18_gen_eq_tzlocal : forall id std dst n0 other,
+  gen_eq_tzlocal (ZLocal id std dst n0) other = meth_eq (ZLocal id std dst n0) other.
+Proof. exact gen_eq_tzlocal_lemma. Qed.
+Print Assumptions C18_gen_eq_tzlocal.
+
+Theorem C18_gen_eq_tzrange : forall id sub sa da so dof sd ed other,
+  gen_eq_tzrange (ZRange id sub sa da so dof sd ed) other = meth_eq (ZRange id sub sa da so dof sd ed) other.
+Proof. exact gen_eq_tzrange_lemma. Qed.
+Print Assumptions C18_gen_eq_tzrange.
+
+Theorem C18_gen_eq_tzfile : forall id sub fl fi ft other,
+  gen_eq_tzfile (ZFile id sub fl fi ft) other = meth_eq (ZFile id sub fl fi ft) other.
+Proof. exact gen_eq_tzfile_lemma. Qed.
+Print Assumptions C18_gen_eq_tzfile.
+
+Theorem C18_gen_ne : forall a b,
+  gen_ne_tzutc a b = zone_ne a b /\ gen_ne_tzoffset a b = zone_ne a b /\ gen_ne_tzlocal a b = zone_ne a b /\
+  gen_ne_tzrange a b = zone_ne a b /\ gen_ne_tzfile a b = zone_ne a b.
+Proof. exact gen_ne_lemma. Qed.
+Print Assumptions C18_gen_ne.
+
+Theorem C18_gen_unhashable :
+  gen_hashable_tzutc = false /\ gen_hashable_tzoffset = false /\ gen_hashable_tzlocal = false /\
+  gen_hashable_tzrange = false /\ gen_hashable_tzfile = false.
+Proof. exact gen_unhashable_lemma. Qed.
+Print Assumptions C18_gen_unhashable.
+
+Theorem C18_gen_cfg :
+  gen_cfg_single = cfg_single /\ gen_cfg_offset = cfg_factory /\ gen_cfg_str = cfg_factory /\
+  gen_cfg_str_nested = cfg_nested /\ gen_cfg_gettz = cfg_gettz /\ gen_cfg_clear = cfg_clear /\
+  gen_cfg_size = cfg_size.
+Proof. exact gen_cfg_lemma. Qed.
+Print Assumptions C18_gen_cfg.
+
+(* ... and `step` follows those tables in every reachable state: a step of an unfinished thread
+   moves its program counter along an edge of the table of the operation it executes (or is one of
+   the model's idle steps) *)
+Theorem C18_step_follows_cfg : forall progs sched t th s' th',
+  let s := run (init progs) sched in
+  nth_error (thrs s) t = Some th -> prog th <> [] -> step s t = Some s' -> nth_error (thrs s') t = Some th' ->
+  th' = th \/ allowed (cfg_of th) (tpc th) (tpc th') = true.
+Proof. exact run_follows_cfg_lemma. Qed.
+Print Assumptions C18_step_follows_cfg.
 
 (* ---- non-vacuity: a two-thread run in which both calls complete, return the same object and
    the spec is checked on two observations *)
